@@ -277,6 +277,10 @@ func intAlts(i int64) []string {
 	var a []string
 	if i >= 0 {
 		a = append(a, "0x"+strconv.FormatInt(i, 16), "0x"+strings.ToUpper(strconv.FormatInt(i, 16)), "0o"+strconv.FormatInt(i, 8), "+"+strconv.FormatInt(i, 10))
+		// the grammar's third alternative is [+-]? Digit+: leading zeros do not change the (decimal) value
+		a = append(a, "0"+strconv.FormatInt(i, 10), "000"+strconv.FormatInt(i, 10))
+	} else {
+		a = append(a, "-0"+strconv.FormatInt(-i, 10))
 	}
 	return a
 }
